@@ -66,7 +66,7 @@ _EXP = re.compile(r"(-?)(\d+)(?:\.(\d+))?e([+-]\d+)\Z")
 
 def _float(v):
     """the exact decimal value of repr(v) as a fraction: positional [-]ddd.ddd -> (digits without the dot, 10^k);
-    exponent form -> the same value with numerator and denominator negated (marks "text not modelled")"""
+    exponent form -> mantissa digits x 10^exponent, as a fraction with a power of ten as denominator"""
     r = repr(v)
     if _DEC.match(r):
         k = len(r) - r.index(".") - 1
@@ -76,7 +76,7 @@ def _float(v):
         sign, ip, fp, e = m.group(1), m.group(2), m.group(3) or "", int(m.group(4))
         num, p = int(sign + ip + fp), e - len(fp)
         num, den = (num * 10 ** p, 1) if p >= 0 else (num, 10 ** (-p))
-        return {"float": [-num, -den]}
+        return {"float": [num, den]}
     return {"float": [0, 0]}
 
 
@@ -440,8 +440,10 @@ def gen_newick(rng, nmax=11):
         for i in range(n):
             attrs[i][cfg["len"]] = rng.choice([1, 7, 40, 65, 100, 999, 12345])
             if floats and rng.random() < 0.6:
-                attrs[i][cfg["len"]] = rng.choice([0.5, 2.0, 1.25, 12.5, 0.05, 100.0, 3.75, 1e-05, -1.5, 1e+16, 2.5e-07, -3e+20,
-                                                    1234567.5, 0.0001, 1e+22])
+                attrs[i][cfg["len"]] = (rng.choice([0.5, 2.0, 1.25, 12.5, 0.05, 100.0, 3.75, 1e-05, -1.5, 1e+16, 2.5e-07, -3e+20,
+                                                     1234567.5, 0.0001, 1e+22, 1e+15, 123456789012345.0, 0.00012, 9.5e-05])
+                                         if rng.random() < 0.6 else
+                                         float(f"{rng.choice(['', '-'])}{rng.randint(1, 99999)}e{rng.randint(-24, 24)}"))
         if floats:
             label += "/len-float"
         if bad:
@@ -726,6 +728,14 @@ def corpus(prop):
                                                      _t("1e-05"), _t("c:1[x]"), _t("( a , b )"))}),
         ("newick-float-forms", {"kind": "nw", "cfg": dict(dflt, len="L"), "isroot": True, "defaults": True, "subclass": "ve",
                                 "tree": _t("r", _t("a", _t("c", L=-2.5e-07), L=1e-05), _t("b", L=1e+16), _t("d", L=0.0001), _t("e", L=7))}),
+        # the two _refuted examples of Props/C06_text.v, replayed on /repo (outside the alphabet: model compared)
+        ("newick-negative-int-length", {"kind": "nw", "cfg": dict(dflt, len="L"), "isroot": True,
+                                        "tree": _t("r", _t("b", L=-5))}),
+        ("newick-zero-length", {"kind": "nw", "cfg": dict(dflt, len="L"), "isroot": True,
+                                "tree": _t("r", _t("b", L=0))}),
+        ("newick-float-every-form", {"kind": "nw", "cfg": dict(dflt, len="L"), "isroot": True,
+                                     "tree": _t("r", _t("a", _t("c", L=-2.5e-07), L=1e-05), _t("b", L=1e+16), _t("d", L=0.0001),
+                                                _t("e", L=7), _t("f", L=2.0), _t("g", L=-3e+20), _t("h", L=1234567.5))}),
         ("print-inner-maxdepth", {"kind": "pr", "tree": deep, "style": ["object", 4], "md": 3, "isroot": False, "subclass": True}),
     ]
     return out
@@ -875,10 +885,11 @@ def partial_clauses(prop):
     return [
         "Newick: non-default length_sep / attr_sep are outside the round-trip claim (newick_to_tree only knows ':'); "
         "with neither length nor attributes requested any separator is covered (C06_newick_roundtrip_anysep)",
-        "float lengths: the theorems cover positive integer lengths; for non-zero float lengths the round-trip predicate "
-        "is evaluated on every implementation output (exact decimal value of repr), the parser model covers decimal "
-        "literals with <= 15 significant digits incl. exponents, the writer's text is compared for positional reprs only; "
-        "inf / nan are not compared",
+        "float lengths: C06_newick_roundtrip_float proves the round trip for every length that is a canonical literal "
+        "(lit_okb: str(v) is a plain token and int()/float() of it is v again) -- positive ints and floats of either sign "
+        "in positional and exponent repr with <= 15 significant digits and |exponent| <= 290; the export clause "
+        "(C06_newick_nodes_once, reference grammar) stays integer-only; the writer model follows repr's rule "
+        "(-4 <= decimal exponent < 16 positional); inf / nan are not compared",
         "str_to_tree with tree_prefix_list: modelled and compared for literal prefixes (no regex metacharacter); no "
         "theorem; regex prefixes and names with non-ASCII whitespace are not compared",
         "name classes kept OUT of the round-trip claim because the unchanged tree itself does not round-trip them "
